@@ -29,6 +29,7 @@
 #include <validation.h>
 
 #include <climits>
+#include <sys/resource.h>
 
 namespace {
 
@@ -111,9 +112,13 @@ void PrivateBlocksDir(ck::Node& n, bool will_write)
 {
     auto& bm = n.chainman().m_blockman;
     const fs::path old = bm.m_block_file_seq.m_dir;
+    auto cpu_ms = [] { timespec ts; clock_gettime(CLOCK_PROCESS_CPUTIME_ID, &ts); return ts.tv_sec * 1e3 + ts.tv_nsec / 1e6; };
+    double c0 = cpu_ms();
     const fs::path dir = g_scratch / fs::u8path("job" + std::to_string(getpid()));
     fs::create_directories(dir);
+    if (getenv("VX_C19_TIME")) fprintf(stderr, "[p] mkdir %.2f\n", cpu_ms() - c0);
     for (const auto& e : fs::directory_iterator(old)) {
+        if (getenv("VX_C19_TIME")) fprintf(stderr, "[p] iter %.2f %s\n", cpu_ms() - c0, fs::PathToString(e.path().filename()).c_str());
         if (!e.is_regular_file()) continue;
         const fs::path to = dir / fs::PathFromString(fs::PathToString(e.path().filename()));
         if (will_write || link(fs::PathToString(e.path()).c_str(), fs::PathToString(to).c_str()) != 0) fs::copy_file(e.path(), to, fs::copy_options::overwrite_existing);
@@ -142,7 +147,12 @@ void RunScenario(ck::Node& n, const Layout& L, const Scen& s, fp::Out& o)
     Chainstate& cs = n.cs();
     const bool timing = getenv("VX_C19_TIME") != nullptr;
     auto t0 = std::chrono::steady_clock::now();
-    auto lap = [&](const char* what) { if (timing) { auto t1 = std::chrono::steady_clock::now(); fprintf(stderr, "[t] %s %.1fms\n", what, std::chrono::duration<double, std::milli>(t1 - t0).count()); t0 = t1; } };
+    auto cpu_ms = [] { timespec ts; clock_gettime(CLOCK_PROCESS_CPUTIME_ID, &ts); return ts.tv_sec * 1e3 + ts.tv_nsec / 1e6; };
+    double c0 = cpu_ms();
+    auto faults = [] { struct rusage ru; getrusage(RUSAGE_SELF, &ru); return (long)ru.ru_minflt; };
+    long f0 = faults();
+    auto lap = [&](const char* what) { if (timing) { long f1 = faults(); fprintf(stderr, "[f] %s %ld\n", what, f1 - f0); f0 = f1; }
+                                       if (timing) { auto t1 = std::chrono::steady_clock::now(); double c1 = cpu_ms(); fprintf(stderr, "[t] %s %.1f %.1f\n", what, std::chrono::duration<double, std::milli>(t1 - t0).count(), c1 - c0); t0 = t1; c0 = c1; } };
     PrivateBlocksDir(n, /*will_write=*/s.mode == 2);
     lap("privdir");
     std::vector<int> ref_locks = s.locks; // reference lock positions (moved back by a reorg)
